@@ -119,7 +119,7 @@ def build(kind, r):
         g1 = trimesh.Trimesh(vertices=V2, faces=F2, process=False)
         g1.visual.face_colors = np.column_stack([rs.randint(0, 256, (len(F2), 3)), np.full(len(F2), 255)]).astype(np.uint8)
         sc.add_geometry(g0, node_name="a", geom_name="g0", transform=mx.hom(mx.rodrigues([0, 0, 1], 0.5), [1, 0, 0]))
-        sc.add_geometry(g1, node_name="b", geom_name="g1", parent_node_name="a", transform=mx.hom(None, [0, 2, 0]))
+        sc.add_geometry(g1, node_name="b", geom_name="g1", parent_node_name="a", transform=mx.hom(None, [0, 2, 0]), **({"metadata": {"serial": 1, "history": ["made"]}} if r.get("edge_meta", True) else {}))
         sc.graph.update(frame_to="c", frame_from="b", matrix=mx.hom(mx.rodrigues([1, 0, 0], 0.3), [0, 0, 1.5]), geometry="g0")
         if r.get("points"):
             sc.add_geometry(trimesh.PointCloud(np.round(rs.uniform(-1, 1, (4, 3)), 3)), node_name="p", geom_name="pc")
@@ -166,6 +166,8 @@ def _visual(m):
     out = {"kind": v.kind}
     if v.kind in ("vertex", "face"):
         out["vertex_colors" if v.kind == "vertex" else "face_colors"] = np.array(v.vertex_colors if v.kind == "vertex" else v.face_colors)
+        # the colours of the other kind are derived values the object has (or will have) computed: they are its own too
+        out["derived_face_colors" if v.kind == "vertex" else "derived_vertex_colors"] = np.array(v.face_colors if v.kind == "vertex" else v.vertex_colors)
     elif v.kind == "texture":
         out["uv"] = np.array(v.uv)
         mat = v.material
@@ -213,7 +215,7 @@ def observe(kind, o, deep=True):
     if kind == "points":
         return {"vertices": np.array(o.vertices), "colors": np.array(o.colors) if o.colors is not None else None, "metadata": _plain(dict(o.metadata)), "bounds": np.array(o.bounds) if len(o.vertices) else None}
     if kind == "scene":
-        out = {"edges": sorted((a, b, np.round(np.array(attr.get("matrix", np.eye(4))), 12).tolist(), attr.get("geometry")) for a, b, attr in o.graph.to_edgelist()), "base": o.graph.base_frame, "metadata": _plain(dict(o.metadata)), "geometry": {}}
+        out = {"edges": sorted((a, b, np.round(np.array(attr.get("matrix", np.eye(4))), 12).tolist(), attr.get("geometry"), repr(_plain(attr.get("metadata")))) for a, b, attr in o.graph.to_edgelist()), "base": o.graph.base_frame, "metadata": _plain(dict(o.metadata)), "geometry": {}}
         for name, g in o.geometry.items():
             gk = "mesh" if isinstance(g, trimesh.Trimesh) else "points"
             out["geometry"][name] = observe(gk, g, deep=False)
@@ -252,13 +254,13 @@ def preread(kind, o, name):
 
 # ----------------------------------------------------------------------------- edits
 EDITS = {
-    "mesh": ["v_item", "v_iadd", "f_flip", "apply_transform", "apply_scale", "color_item", "meta_nested", "meta_new", "attr_item", "density", "center_mass", "update_faces", "invert", "merge_vertices", "assign_vertices", "v_sort", "visual_assign"],
+    "mesh": ["v_item", "v_iadd", "f_flip", "apply_transform", "apply_scale", "color_item", "meta_nested", "meta_new", "attr_item", "density", "center_mass", "update_faces", "invert", "merge_vertices", "assign_vertices", "v_sort", "visual_assign", "color_other_item"],
     "mesh_texture": ["v_item", "apply_transform", "uv_item", "material_color", "image_pixel", "meta_nested", "update_faces"],
     "primitive": ["param_set", "param_inplace", "transform_inplace", "apply_transform", "apply_scale", "meta_nested", "density", "apply_translation"],
     "path2d": ["v_item", "entity_points", "entity_color", "entity_layer", "apply_transform", "meta_nested", "entity_reverse", "v_iadd"],
     "path3d": ["v_item", "entity_points", "entity_color", "entity_layer", "apply_transform", "meta_nested", "v_iadd"],
     "points": ["v_item", "color_item", "apply_transform", "meta_nested", "v_iadd"],
-    "scene": ["edge_update", "geom_v_item", "geom_transform", "add_geometry", "delete_geometry", "meta_nested", "graph_setitem", "geom_color"],
+    "scene": ["edge_update", "geom_v_item", "geom_transform", "add_geometry", "delete_geometry", "meta_nested", "graph_setitem", "geom_color", "edge_meta_inplace", "geom_color_other"],
     "voxel": ["apply_transform", "apply_scale", "transform_inplace", "meta_nested", "encoding_item"],
 }
 
@@ -300,6 +302,14 @@ def apply_edit(kind, o, e):
                 o.visual.vertex_colors[i % nv] = [1, 2, 3, 255]
             else:
                 o.visual.face_colors = np.tile([9, 8, 7, 255], (nf, 1))
+        elif k == "color_other_item":
+            # in-place edit of the derived colours (face-coloured mesh: its vertex colours, and the reverse); trimesh promotes them to stored data
+            if o.visual.kind == "face":
+                o.visual.vertex_colors[i % nv] = [1, 2, 3, 255]
+            elif o.visual.kind == "vertex":
+                o.visual.face_colors[i % nf] = [1, 2, 3, 255]
+            else:
+                raise Inapplicable()
         elif k == "visual_assign":
             o.visual.vertex_colors = np.tile([(i * 7) % 256, 8, 7, 255], (nv, 1))
         elif k == "attr_item":
@@ -415,7 +425,7 @@ def apply_edit(kind, o, e):
             o.graph.update(frame_to="b", frame_from="a", matrix=M)
         elif k == "graph_setitem":
             o.graph["a"] = M
-        elif k in ("geom_v_item",) and "g0" not in o.geometry or k in ("geom_transform", "geom_color") and "g1" not in o.geometry:
+        elif k in ("geom_v_item",) and "g0" not in o.geometry or k in ("geom_transform", "geom_color", "geom_color_other") and "g1" not in o.geometry:
             raise Inapplicable()
         elif k == "geom_v_item":
             g = o.geometry["g0"]
@@ -424,6 +434,20 @@ def apply_edit(kind, o, e):
             o.geometry["g1"].apply_transform(M)
         elif k == "geom_color":
             o.geometry["g1"].visual.face_colors[i % len(o.geometry["g1"].faces)] = [1, 2, 3, 255]
+        elif k == "geom_color_other":
+            g = o.geometry["g1"]
+            if g.visual.kind == "face":
+                g.visual.vertex_colors[i % len(g.vertices)] = [1, 2, 3, 255]
+            elif g.visual.kind == "vertex":
+                g.visual.face_colors[i % len(g.faces)] = [1, 2, 3, 255]
+            else:
+                raise Inapplicable()
+        elif k == "edge_meta_inplace":
+            attr = o.graph.transforms.edge_data.get(("a", "b"))
+            if attr is None or not isinstance(attr.get("metadata"), dict) or "history" not in attr["metadata"]:
+                raise Inapplicable()
+            attr["metadata"]["serial"] = i
+            attr["metadata"]["history"].append(f"rework{i}")
         elif k == "add_geometry":
             if "extra" in o.geometry:
                 raise Inapplicable()
@@ -520,6 +544,7 @@ class C17(World):
             r["colors"] = rng.random() < 0.7
         if kind == "scene":
             r["points"] = rng.random() < 0.4
+            r["edge_meta"] = rng.random() < 0.7
         if kind == "voxel":
             r["encoding"] = rng.choice(["dense", "sparse", "rle"])
         return r
@@ -608,6 +633,9 @@ class C17(World):
                         apply_edit(kind, twin_o, e)
                         apply_edit(kind, twin_c, e)
                     self._eq(ctx, kind, twin_o, orig, "harness", "twin-vs-original")
+                    # the copy's twin goes through the same reads as everything else (lazy promotion of edited derived colours
+                    # depends on what was read: a read-history question, not a sharing question)
+                    observe(kind, twin_c)
                     try:
                         cp = do_copy(kind, orig, route)
                     except (KeyboardInterrupt, SystemExit, MemoryError):
